@@ -76,3 +76,18 @@ Proof.
   intros [s|] f axis side; unfold r_boundary_support, remove_at; [reflexivity|].
   unfold support_of, boundary. cbn [kvs]. unfold remove_at. rewrite map_app, firstn_map, skipn_map. reflexivity.
 Qed.
+
+(* ---- UserFunction ---------------------------------------------------------------------------- *)
+
+(* the three routes of a user-defined function agree (for any callable, coordinate and value types), and
+   so do the routes of its boundary restriction *)
+Lemma user_routes_agree_l : forall (A B : Type) (fn : list A -> B) xs axis fixed,
+  u_pw fn xs = u_call fn xs /\ u_grid fn (rev xs) = u_call fn xs
+  /\ ((axis <= length xs)%nat ->
+      bf_call (u_call fn) axis fixed xs = bf_grid (u_grid fn) axis fixed (rev xs)).
+Proof.
+  intros A B fn xs axis fixed. split; [reflexivity|]. split.
+  - unfold u_grid, u_call. rewrite rev_involutive. reflexivity.
+  - intros Ha. unfold bf_call, bf_grid, u_grid, u_call. rewrite <- (insert_rev xs fixed axis Ha).
+    rewrite rev_involutive. reflexivity.
+Qed.
